@@ -849,8 +849,8 @@ func compareByASNumber(path1, path2 *Path) *Path {
 	//peers, return None.
 
 	// Path from confederation member should be treated as internal (IBGP learned) path.
-	isIBGP1 := path1.GetSource().Confederation || path1.IsIBGP()
-	isIBGP2 := path2.GetSource().Confederation || path2.IsIBGP()
+	isIBGP1 := isInternalPath(path1)
+	isIBGP2 := isInternalPath(path2)
 	// If one path is from ibgp peer and another is from ebgp peer, take the ebgp path.
 	if isIBGP1 != isIBGP2 {
 		if isIBGP1 {
@@ -861,6 +861,15 @@ func compareByASNumber(path1, path2 *Path) *Path {
 
 	// If both paths are from ebgp or ibpg peers, we cannot decide.
 	return nil
+}
+
+// isInternalPath reports whether the path is treated as internally learned
+// by the decision process: an iBGP path or a path from a confederation
+// member. The eBGP/iBGP step, the age step and the router-id step have to
+// agree on this, otherwise the resulting preference is not transitive and
+// the best path depends on the arrival order.
+func isInternalPath(path *Path) bool {
+	return path.GetSource().Confederation || path.IsIBGP()
 }
 
 func compareByRouterID(path1, path2 *Path) (*Path, error) {
@@ -878,11 +887,11 @@ func compareByRouterID(path1, path2 *Path) (*Path, error) {
 
 	// If both paths are from eBGP peers, then according to RFC we need
 	// not tie break using router id.
-	if !SelectionOptions.ExternalCompareRouterId && !path1.IsIBGP() && !path2.IsIBGP() {
+	if !SelectionOptions.ExternalCompareRouterId && !isInternalPath(path1) && !isInternalPath(path2) {
 		return nil, nil
 	}
 
-	if !SelectionOptions.ExternalCompareRouterId && path1.IsIBGP() != path2.IsIBGP() {
+	if !SelectionOptions.ExternalCompareRouterId && isInternalPath(path1) != isInternalPath(path2) {
 		return nil, fmt.Errorf("this method does not support comparing ebgp with ibgp path")
 	}
 
@@ -924,7 +933,7 @@ func compareByNeighborAddress(path1, path2 *Path) *Path {
 }
 
 func compareByAge(path1, path2 *Path) *Path {
-	if !path1.IsIBGP() && !path2.IsIBGP() && !SelectionOptions.ExternalCompareRouterId {
+	if !isInternalPath(path1) && !isInternalPath(path2) && !SelectionOptions.ExternalCompareRouterId {
 		age1 := path1.GetTimestamp().UnixNano()
 		age2 := path2.GetTimestamp().UnixNano()
 		if age1 == age2 {
